@@ -424,3 +424,16 @@
   (! (=> (and (<= 0 m) (<= m n))
          (<= (nfsum L lo W wo true M mo n) (+ (nfsum L lo W wo true M mo m) (- n m))))
      :pattern ((nfsum L lo W wo true M mo m) (nfsum L lo W wo true M mo n)))))
+; true literals are not false: the true weight never exceeds the non-false weight (non-negative weights)
+;@lemma tsum_le_nfsum
+(assert (forall ((L (Array Int Int)) (lo Int) (W (Array Int Int)) (wo Int) (wn Bool) (M (Array Int Int)) (mo Int) (n Int))
+  (! (=> (or wn (forall ((j Int)) (! (=> (and (<= wo j) (< j (+ wo n))) (>= (select W j) 0)) :pattern ((select W j)))))
+         (<= (tsum L lo W wo wn M mo n) (nfsum L lo W wo wn M mo n)))
+     :pattern ((tsum L lo W wo wn M mo n) (nfsum L lo W wo wn M mo n)))))
+; the non-false weight of a prefix is at most that of a longer prefix (non-negative weights)
+;@lemma nfsum_mono
+(assert (forall ((L (Array Int Int)) (lo Int) (W (Array Int Int)) (wo Int) (wn Bool) (M (Array Int Int)) (mo Int) (m Int) (n Int))
+  (! (=> (and (or wn (forall ((j Int)) (! (=> (and (<= wo j) (< j (+ wo n))) (>= (select W j) 0)) :pattern ((select W j)))))
+              (<= 0 m) (<= m n))
+         (<= (nfsum L lo W wo wn M mo m) (nfsum L lo W wo wn M mo n)))
+     :pattern ((nfsum L lo W wo wn M mo m) (nfsum L lo W wo wn M mo n)))))
